@@ -233,6 +233,28 @@ func runC17(chk *vcommon.Check, thorough bool) {
 							return
 						}
 					}
+					// an empty block anywhere after the header (at the very end it must not pass for the end of the
+					// stream), alone or followed by surplus certificates / garbage
+					for k := 1; k <= nb; k++ {
+						ins := append(append(append([][]byte{}, blocks[:k]...), []byte{}), blocks[k:]...)
+						if !mustReject("inserted-empty-block", joinBlocks(ins), nil) {
+							return
+						}
+					}
+					{
+						tail := append(append([][]byte{}, blocks...), []byte{})
+						if int(end-first)+1 < len(ref.certs) {
+							if !mustReject("empty-block-then-surplus", joinBlocks(append(append([][]byte{}, tail...), certBlock(ref.certs[end-first+1]))), nil) {
+								return
+							}
+						}
+						if !mustReject("empty-block-then-repeat", joinBlocks(append(append([][]byte{}, tail...), blocks[nb-1])), nil) {
+							return
+						}
+						if !mustReject("empty-block-then-garbage", append(joinBlocks(tail), 0xde, 0xad, 0xbe, 0xef), nil) {
+							return
+						}
+					}
 					// header disagreements
 					for _, hm := range []struct {
 						name string
@@ -251,6 +273,29 @@ func runC17(chk *vcommon.Check, thorough bool) {
 						h := certstore.SnapshotHeader{Version: 1, FirstInstance: first, LatestInstance: end - 1, InitialPowerTable: table0()}
 						if !mustReject("header-latest-1", joinBlocks(append([][]byte{headerBlock(h)}, blocks[1:]...)), nil) {
 							return
+						}
+					}
+					// the header's initial table restated (entries permuted / one entry listed twice) while the manifest
+					// pins the genuine table
+					{
+						pinned := &manifest.Manifest{InitialInstance: first, InitialPowerTable: vfix.TableCID(table0())}
+						t0 := table0()
+						rev := make(gpbft.PowerEntries, len(t0))
+						for i := range t0 {
+							rev[len(t0)-1-i] = t0[i]
+						}
+						swp := append(gpbft.PowerEntries{}, t0...)
+						swp[0], swp[1] = swp[1], swp[0]
+						dupl := append(append(gpbft.PowerEntries{}, t0...), t0[len(t0)-1])
+						dupf := append(gpbft.PowerEntries{t0[0]}, t0...)
+						for _, hm := range []struct {
+							name string
+							t    gpbft.PowerEntries
+						}{{"header-table-reversed", rev}, {"header-table-swapped", swp}, {"header-table-duplicate-last", dupl}, {"header-table-duplicate-first", dupf}} {
+							h := certstore.SnapshotHeader{Version: 1, FirstInstance: first, LatestInstance: end, InitialPowerTable: hm.t}
+							if !mustReject(hm.name+"-vs-manifest", joinBlocks(append([][]byte{headerBlock(h)}, blocks[1:]...)), pinned) {
+								return
+							}
 						}
 					}
 					// manifest mismatches
